@@ -3,15 +3,21 @@
    against the user-supplied value of every configured carrier that applies to the requested operation. *)
 EXTENDS Naturals, Sequences, FiniteSets, TLC, Json, IOUtils
 Runs == JsonDeserialize(IOEnv.OBS_FILE)   \* [hdr |-> [carriers, user, applies], lines |-> <<[op, ph, vals]>>]
-NC == 7
+NC == 8
+KeyCarrier == 8        \* the API's declared credential (apiKey header): the only thing an ignored_auth probe may lack
 VARIABLES t, l
 Init == t \in 1..Len(Runs) /\ l = 1
 Hdr == Runs[t].hdr
 Lines == Runs[t].lines
 Next == l <= Len(Lines) /\ l' = l + 1 /\ t' = t
 Spec == Init /\ [][Next]_<<t, l>>
-LineOK(x) == \A c \in 1..NC : (Hdr.carriers[c] /\ Hdr.applies[x.op][c]) => x.vals[c] = Hdr.user[c]
-FirstBad(x) == CHOOSE c \in 1..NC : Hdr.carriers[c] /\ Hdr.applies[x.op][c] /\ x.vals[c] # Hdr.user[c]
+Exempt(x, c) == x.probe /\ c = KeyCarrier                 \* sanctioned exception of the property: probes strip the credential
+LineOK(x) == \A c \in 1..NC : (Hdr.carriers[c] /\ Hdr.applies[x.op][c] /\ ~Exempt(x, c)) => x.vals[c] = Hdr.user[c]
+FirstBad(x) == CHOOSE c \in 1..NC : Hdr.carriers[c] /\ Hdr.applies[x.op][c] /\ ~Exempt(x, c) /\ x.vals[c] # Hdr.user[c]
+(* at most one credential-less and one invalid-credential probe per probed request and declared security parameter (one here) *)
+ProbesOf(p) == Cardinality({i \in 1..Len(Lines) : Lines[i].probe /\ Lines[i].parent = p})
+ProbeBudgetOK == \A i \in 1..Len(Lines) : Lines[i].probe => ProbesOf(Lines[i].parent) <= 2
 Report == /\ IF l <= Len(Lines) /\ ~LineOK(Lines[l]) THEN PrintT(<<"REJECT", t, l, FirstBad(Lines[l]), Lines[l].ph, Lines[l].op>>) ELSE TRUE
+          /\ IF l = Len(Lines) + 1 /\ ~ProbeBudgetOK THEN PrintT(<<"REJECT", t, l, 0, 0, 0>>) ELSE TRUE
           /\ IF l = Len(Lines) + 1 THEN PrintT(<<"END", t, Len(Lines)>>) ELSE TRUE
 =============================================================================
